@@ -4,6 +4,7 @@ from datetime import datetime
 from sx import oracle as O
 
 from . import sxlib
+from sx.spec import Dep, P, Res, Task
 from .sxlib import H, S6, ranges_e
 
 PROPERTY = "C05"
@@ -27,6 +28,19 @@ def cells(tier: str) -> dict:
     # limits that are not a whole number of slots (3.5 h with 1 h slots, 0.75 h with 30 min slots, 10.6 h per week on a group)
     add("S6[dres,3.5h]", lambda: S6("dres", limit="3.5h"), 4 * H, 9 * H)
     add("S6[wgroup,10.6h]", lambda: S6("wgroup", limit="10.6h"), 8 * H, 14 * H)
+    # the limited resource starts inside a slot (dependency on a task of ANOTHER resource that ends mid-slot): the partly used slot counts
+    def cross():
+        sp = S6("dres", limit="2h", n=1)
+        sp.resources.append(Res("q"))
+        sp.tasks.insert(0, Task("pre", effort=P("e9"), alloc=["q"]))
+        sp.tasks[1].deps = [Dep("pre")]
+        return sp
+    def cross_f():
+        return cross(), {"e9": (600, 3000), "e0": (2 * H, 3 * H)}, None
+    out["S6[dres,cross-offset]"] = cross_f
+    # a limit written in minutes
+    add("S6[dres,120min]", lambda: S6("dres", limit="120min"), H + 1800, 2 * H + 1800)
+    add("S6[wres,300min]", lambda: S6("wres", limit="300min"), 4 * H, 6 * H)
 
     def half():
         s = S6("dres", limit="0.75h")
